@@ -37,8 +37,10 @@ import (
 	cutils "github.com/ontio/ontology/core/utils"
 	"github.com/ontio/ontology/core/validation"
 	ontErrors "github.com/ontio/ontology/errors"
+	"github.com/ontio/ontology/smartcontract/service/native/global_params"
 	"github.com/ontio/ontology/smartcontract/service/native/ont"
 	nutils "github.com/ontio/ontology/smartcontract/service/native/utils"
+	"github.com/ontio/ontology/smartcontract/service/neovm"
 	"pgregory.net/rapid"
 
 	"verifharness/internal/fix"
@@ -358,7 +360,7 @@ func TestC02_ReplicasAgree(t *testing.T) {
 			for _, tok := range []common.Address{nutils.OntContractAddress, nutils.OngContractAddress} {
 				amt := uint64(100000)
 				if tok == nutils.OngContractAddress {
-					amt = 50000000000
+					amt = 400000000000
 				}
 				tx, err := A.Transfer(tok, accts[0].Keys[0], a.Addr, amt, 0, 20000)
 				if err != nil {
@@ -379,19 +381,68 @@ func TestC02_ReplicasAgree(t *testing.T) {
 		commit(fund, fd, false)
 
 		evmNonce := map[int]uint64{}
+		paramsChanged := false
 		nBlocks := rapid.IntRange(2, 5).Draw(t, "blocks")
 		for bi := 0; bi < nBlocks; bi++ {
 			nTx := rapid.IntRange(1, 4).Draw(t, "ntx")
 			var txs []*types.Transaction
 			var descs []c02TxDesc
 			for j := 0; j < nTx; j++ {
-				kind := rapid.SampledFrom([]string{"transfer", "transfer", "transfer", "witness-probe", "witness-probe", "map-probe", "deploy", "evm-transfer", "evm-create", "eth-key-ont-tx"}).Draw(t, "kind")
+				kind := rapid.SampledFrom([]string{"transfer", "transfer", "transfer", "witness-probe", "witness-probe", "map-probe", "deploy", "deploy", "evm-transfer", "evm-create", "eth-key-ont-tx", "param-change", "param-change"}).Draw(t, "kind")
 				if kind == "eth-key-ont-tx" && ethClassKnown {
 					ev.Excluded()
 					kind = "witness-probe"
 				}
+				// gas price of the Ontology-format kinds: with a non-zero price the governed gas table
+				// (global params, refreshed into a process-wide table per block) decides fees
+				gasPrice := rapid.SampledFrom([]uint64{0, 2500, 2500}).Draw(t, "gasprice")
+				if paramsChanged {
+					// once prices were changed every following tx pays fees, and most of them are deploys
+					// (fees are rounded up to 20000-gas units, so only large prices show in balances)
+					gasPrice = 2500
+					if kind != "param-change" && rapid.IntRange(0, 2).Draw(t, "deploy-after-change") > 0 {
+						kind = "deploy"
+					}
+				}
 				d := c02TxDesc{Kind: kind}
 				switch kind {
+				case "param-change":
+					// the operator (genesis bookkeeper) re-prices 1-4 governed gas-table entries and
+					// activates them with a snapshot; later blocks are charged by the new prices
+					var ps global_params.Params
+					var names []string
+					for n := rapid.IntRange(1, 4).Draw(t, "nparams"); n > 0; n-- {
+						key := rapid.SampledFrom(c02GovernedKeys).Draw(t, "pkey")
+						if rapid.Bool().Draw(t, "deploy-price") {
+							key = rapid.SampledFrom([]string{neovm.CONTRACT_CREATE_NAME, neovm.UINT_DEPLOY_CODE_LEN_NAME, neovm.NATIVE_INVOKE_NAME, neovm.RUNTIME_CHECKWITNESS_NAME}).Draw(t, "pkey2")
+						}
+						init := neovm.INIT_GAS_TABLE[key]
+						val := rapid.SampledFrom([]uint64{0, 1, init / 2, init + 1, init * 2, init * 3, 25000, 60000}).Draw(t, "pval")
+						ps.SetParam(global_params.Param{Key: key, Value: fmt.Sprint(val)})
+						names = append(names, fmt.Sprintf("%s=%d", key, val))
+					}
+					op := accts[0]
+					for _, call := range []struct {
+						method string
+						arg    interface{}
+					}{{global_params.SET_GLOBAL_PARAM_NAME, ps}, {global_params.CREATE_SNAPSHOT_NAME, ""}} {
+						mtx, err := A.NativeInvoke(nutils.ParamContractAddress, call.method, []interface{}{call.arg}, gasPrice, 200000)
+						if err != nil {
+							t.Fatal(err)
+						}
+						mtx.Payer = op.Addr
+						if err := c02Attach(mtx, op, nil); err != nil {
+							t.Fatal(err)
+						}
+						tx, err := mtx.IntoImmutable()
+						if err != nil {
+							t.Fatal(err)
+						}
+						txs = append(txs, tx)
+						descs = append(descs, c02TxDesc{Kind: "param-change", From: op.Name, Signers: []string{op.Name}, Extra: call.method + " " + strings.Join(names, ",")})
+					}
+					paramsChanged = true
+					continue
 				case "transfer", "witness-probe", "map-probe", "deploy", "eth-key-ont-tx":
 					fromIdx := rapid.IntRange(0, len(accts)-2).Draw(t, "from") // without the eth-type account
 					if kind == "eth-key-ont-tx" {
@@ -399,6 +450,10 @@ func TestC02_ReplicasAgree(t *testing.T) {
 					}
 					from := accts[fromIdx]
 					d.From = from.Name
+					d.Extra = fmt.Sprintf("gp%d ", gasPrice)
+					if gasPrice > 0 && paramsChanged {
+						ev.Class("fee-paying tx after a gas-price change")
+					}
 					var mtx *types.MutableTransaction
 					switch kind {
 					case "transfer", "eth-key-ont-tx":
@@ -409,13 +464,13 @@ func TestC02_ReplicasAgree(t *testing.T) {
 						to := accts[rapid.IntRange(0, len(accts)-1).Draw(t, "to")]
 						amt := rapid.OneOf(rapid.Uint64Range(0, 50), rapid.Just(uint64(1)<<61)).Draw(t, "amt")
 						st := &ont.TransferState{From: from.Addr, To: to.Addr, Value: amt}
-						mtx, err = A.NativeInvoke(tok, "transfer", []interface{}{[]*ont.TransferState{st}}, 0, 20000)
+						mtx, err = A.NativeInvoke(tok, "transfer", []interface{}{[]*ont.TransferState{st}}, gasPrice, rapid.SampledFrom([]uint64{20000, 200000}).Draw(t, "gaslimit"))
 						if err != nil {
 							t.Fatal(err)
 						}
-						d.Extra = fmt.Sprintf("%x->%s:%d", tok[19], to.Name, amt)
+						d.Extra += fmt.Sprintf("%x->%s:%d", tok[19], to.Name, amt)
 					case "witness-probe":
-						mtx = A.RawInvoke(c02WitnessProbe(cands), 0, 200000)
+						mtx = A.RawInvoke(c02WitnessProbe(cands), gasPrice, 200000)
 					case "map-probe":
 						n := rapid.IntRange(2, 8).Draw(t, "mapn")
 						seen := map[string]bool{}
@@ -430,17 +485,20 @@ func TestC02_ReplicasAgree(t *testing.T) {
 							ks = append(ks, k)
 							vs = append(vs, rapid.IntRange(0, 300).Draw(t, "mv"))
 						}
-						mtx = A.RawInvoke(c02MapProbe(ks, vs), 0, 200000)
-						d.Extra = fmt.Sprintf("map%d", n)
+						mtx = A.RawInvoke(c02MapProbe(ks, vs), gasPrice, 200000)
+						d.Extra += fmt.Sprintf("map%d", n)
 					case "deploy":
 						code := append(c02WitnessProbe(cands[:2]), rapid.SliceOfN(rapid.Byte(), 0, 8).Draw(t, "codetail")...)
+						// 0-3 whole code-length units (Deploy.Code.Gas is charged per unit)
+						code = append(code, make([]byte, neovm.PER_UNIT_CODE_LEN*rapid.IntRange(0, 3).Draw(t, "codeunits"))...)
 						mtx, err = cutils.NewDeployTransaction(code, "n", "v", "a", "e", "d", payload.NEOVM_TYPE)
 						if err != nil {
 							t.Fatal(err)
 						}
 						A.NonceCt++
 						mtx.Nonce = A.NonceCt
-						mtx.GasLimit = 30000000
+						mtx.GasLimit = 70000000
+						mtx.GasPrice = gasPrice
 					}
 					mtx.Payer = from.Addr
 					// signer sets: the payer account plus 0-2 generated co-signers
@@ -531,6 +589,17 @@ func TestC02_ReplicasAgree(t *testing.T) {
 		ev.Class("replicaC:agreed")
 	})
 }
+
+// governed gas-table entries a param-change re-prices (the wasm factor is left alone: 0 divides)
+var c02GovernedKeys = func() []string {
+	var ks []string
+	for _, k := range neovm.GAS_TABLE_KEYS {
+		if _, ok := neovm.INIT_GAS_TABLE[k]; ok && k != config.WASM_GAS_FACTOR {
+			ks = append(ks, k)
+		}
+	}
+	return ks
+}()
 
 func seq(n int) []int {
 	out := make([]int, n)
